@@ -8,8 +8,9 @@ spec         : specs/Resolver.tla, section "C16": UpgradeOk (the target is satis
                candidate, no reachable blocker matches anything, requirements on one name admit the
                same packages, no cycle through a build-time dependency, no slot-moved versions).
                Outside Robust the policy clauses are Unspecified (counted, not judged).
-               Deterministic: two resolutions of identical inputs (fresh objects) give the same
-               answer and the same operations; a further set of worlds is resolved once in this
+               Deterministic: two resolutions of identical inputs (fresh objects; the resolutions of all
+               the other worlds of the batch lie between them, so nothing may leak from one resolver
+               instance to the next) give the same answer and the same operations; a further set of worlds is resolved once in this
                process (after many other resolutions) and once in a fresh interpreter with another
                PYTHONHASHSEED, in reversed order.
 MC           : Resolver_MC (shared with C15): RobustNeverFails / RobustPolicy - in the
@@ -67,7 +68,7 @@ def cross_process_determinism(ck, n_worlds, batch):
 def run(ck):
     use_repo()
     want = set(c15.POLICY_CLAUSES)
-    ck.rule = ("one evaluation = one (world, strategy) resolved twice; non-trivial = distinct (world, strategy) that "
+    ck.rule = ("one evaluation = one (world, strategy) resolved twice with other worlds' resolutions in between; non-trivial = distinct (world, strategy) that "
                "succeeded merging a source package; the evidence field policy_clauses_judged counts the targets whose "
                "policy clause was inside the Robust domain (the others are Unspecified)")
     ck.assumptions = c15.ASSUMPTIONS + [
